@@ -5,7 +5,7 @@
                    "a Set failed inside a transaction that committed" (finding S1)            *)
 From Verif Require Import Base.CaseCheck Conn.Trace.
 
-Record ccase := mkCase { c_cfg : cfg; c_log : list event; c_obs : list robs }.
+Record ccase := mkCase { c_cfg : cfg; c_log : list event; c_obs : list robs; c_fobs : list fobs }.
 
 Definition code3 (acc mon weak : bool) : nat :=
   (if acc then 0 else 1) + (if mon then 0 else 2) + (if weak then 0 else 4).
@@ -16,6 +16,7 @@ Definition chk02 (c : ccase) : nat :=
         (Mon_C02 false (c_cfg c) (c_log c)).
 
 Definition chk03 (c : ccase) : nat :=
-  code3 (accepts (c_cfg c) (c_log c) && forallb (restart_ok (c_cfg c) (c_log c)) (c_obs c))
-        (Mon_C03 true (c_cfg c) (c_log c) (c_obs c))
-        (Mon_C03 false (c_cfg c) (c_log c) (c_obs c)).
+  code3 (accepts (c_cfg c) (c_log c) && forallb (restart_ok (c_cfg c) (c_log c)) (c_obs c)
+         && forallb (full_acc (c_cfg c) (c_log c)) (c_fobs c))
+        (Mon_C03 true (c_cfg c) (c_log c) (c_obs c) && forallb (full_mon (c_cfg c) (c_log c)) (c_fobs c))
+        (Mon_C03 false (c_cfg c) (c_log c) (c_obs c) && forallb (full_mon (c_cfg c) (c_log c)) (c_fobs c)).
